@@ -166,12 +166,17 @@ def check_one(ctx, rtext, names, docs, exps, tag):
     case = {"rules": rtext, "tests": ttext, "names": names}
     fl = {"rr.guard": rtext, "tests/rr_tests.json": ttext}
     outs = {}
+    import zlib
+    # every documented extension of a tests file (JSON text is YAML too), and the directory ordering flags
+    ext = ["json", "yaml", "yml", "jsn"][zlib.crc32(ttext.encode()) % 4]          # the four extensions the --dir layout picks up
+    order = [[], ["-a"], ["-m"]][zlib.crc32(rtext.encode()) % 3]
+    ctx.res.extra.setdefault("tests_file_extensions", set()).add(ext)
     for fmt in ("plain", "json", "yaml", "junit"):
         for layout in ("files", "dir"):
             if layout == "dir" and fmt in ("yaml",) and ctx.quick:
                 continue
-            argv = ["test"] + (["-r", "{S}/rr.guard", "-t", "{S}/tests/rr_tests.json"] if layout == "files" else ["-d", "{S}"]) + ([] if fmt == "plain" else ["-o", fmt])
-            r = ctx.w.run({"k": "cli", "argv": argv, "files": {"rr.guard": rtext, "tests/rr_tests.json": ttexts[layout]}, "subst_files": True})
+            argv = ["test"] + (["-r", "{S}/rr.guard", "-t", "{S}/tests/rr_tests." + ext] if layout == "files" else ["-d", "{S}"]) + ([] if fmt == "plain" else ["-o", fmt]) + order
+            r = ctx.w.run({"k": "cli", "argv": argv, "files": {"rr.guard": rtext, "tests/rr_tests." + ext: ttexts[layout]}, "subst_files": True})
             ctx.res.cases += 1
             cfg = "%s-%s" % (fmt, layout)
             c2 = dict(case, cfg=cfg)
